@@ -27,3 +27,43 @@ def run(ctx):
         corpusarm = None
     if corpusarm:
         corpusarm.run_for(ctx, 'C03')
+
+
+def replay(ctx, path):
+    """re-run the recorded decoder program (or, for the corpus arm, the recorded decode job) on the current tree"""
+    import os, json, vlib, treearm, corpusarm
+    d = json.load(open(path))
+    c = d['case'] or {}
+    ctx.cov['evaluations'] = 1; ctx.cov['distinct_nontrivial'] = 2; ctx.cov['rule'] = 'replay of one recorded case'
+    pref = treearm.ASPECTS[ctx.pid]
+    if 'prog' in c and c.get('hasprog', True) and c['prog']:
+        cp = os.path.join(ctx.build, 'replay_prog.ndjson'); ep = os.path.join(ctx.build, 'replay_ev.ndjson')
+        vlib.write_ndjson(cp, [dict(len=c['len'], force=c['force'], prog=c['prog'])])
+        ctx.run([ctx.go_build('tree'), 'prog', cp, ep], check=True, timeout=300)
+        evs = vlib.read_ndjson(ep)
+        for e in evs:
+            e['hasprog'] = True
+        rej, _ = treearm.tv_tree(ctx, evs, 'tv_replay', shards=1)
+        for i in rej:
+            for sig in rej[i]:
+                if sig.startswith(pref):
+                    ctx.finding(sig, treearm.describe(evs[i]), evs[i])
+        ctx.sample(dict(kind='replayed program', program=treearm.describe(evs[0])))
+    elif 'job' in c:
+        res = corpusarm.run_jobs(ctx, [c['job']], 'replay')
+        rr = res[0]['res'] or {}
+        for s_ in (rr.get('refwhy'), rr.get('refgap'), rr.get('refbits')):
+            if s_ and s_ != 'ok' and s_.startswith(pref):
+                ctx.finding('%s@%s' % (s_, corpusarm.family(c['job']['file'])), 'replayed decode job', c)
+        ctx.sample(dict(kind='replayed decode job', job=c['job']))
+    elif 'ranges' in c:
+        ep = os.path.join(ctx.build, 'replay_gaps.ndjson'); cp = os.path.join(ctx.build, 'replay_gcase.ndjson')
+        vlib.write_ndjson(cp, [dict(total=c['total'], ranges=[dict(s=a, l=b) for a, b in c['ranges']])])
+        ctx.run([ctx.go_build('c04'), 'replay', cp, ep], check=True, timeout=60)
+        rej, _, _ = ctx.tv('TraceGaps', 'TraceGaps.cfg', ep, name='tv_replay')
+        ev = vlib.read_ndjson(ep)[0]
+        for l, sig in rej:
+            ctx.finding(sig, 'ranges.Gaps(0:%d, %s) = %s' % (ev['total'], ev['ranges'], ev['gaps']), ev)
+        ctx.sample(dict(kind='replayed ranges.Gaps call', **ev))
+    else:
+        raise vlib.Inconclusive('replay file holds no recognised case')
